@@ -219,6 +219,21 @@ theorem most_common_sorted (s : TC K) (n : Option Int) :
     · exact List.Pairwise.nil
     · exact (sortDesc_sorted s.items).sublist (List.take_sublist _ _)
 
+/-- what the correspondence compares of a `most_common()` result (`canon`: ties put in key order) does not
+    depend on the order among equal counts: EVERY list with the pairs of `items()` prints like the model's
+    answer - so an implementation is free in exactly what the statement leaves free -/
+theorem most_common_canonical (s : TC Nat) (r : List (Nat × Nat)) (h : r.Perm s.items) :
+    canon r = canon (s.mostCommon none) :=
+  canon_eq_of_perm _ _ (h.trans (most_common_perm_items s).symm)
+
+/-- … and the canonical form is itself a correct answer: the pairs of `items()` in descending count order -/
+theorem canon_is_most_common (s : TC Nat) :
+    (canon s.items).Perm s.items ∧ (canon s.items).Pairwise (fun a b => b.2 ≤ a.2) := by
+  refine ⟨canon_perm _, (canon_sorted s.items).imp ?_⟩
+  intro a b h
+  simp only [canonLe, Bool.or_eq_true, Bool.and_eq_true, decide_eq_true_eq, beq_iff_eq] at h
+  omega
+
 /-- `most_common(n)` is the length-`n` prefix of `most_common()` -/
 theorem most_common_take (s : TC K) (n : Int) (hn : 0 < n) :
     s.mostCommon (some n) = (s.mostCommon none).take n.toNat := by
@@ -299,6 +314,9 @@ example : ((TC.ofThreshold 3 10 : Option (TC Nat)).map (·.w), (TC.ofThreshold 1
 -- per-key shortfalls of that stream over U = [0, 1, 2, 3]: (3-1) + (2-0) + (2-2) + 0 = 4
 example : ([0, 1, 2, 3].map fun k => [0, 1, 1, 0, 2, 2, 0].count k - (reach 3 [0, 1, 1, 0, 2, 2, 0]).get k)
     = [2, 2, 0, 0] := by decide
+-- ties print in key order whatever order the answer had; the cut of most_common(2) names only the key above it
+example : (canon [(5, 2), (1, 2), (7, 3)], canonTop [(7, 3), (5, 2)]) = ([(7, 3), (1, 2), (5, 2)], [(some 7, 3), (none, 2)]) := by
+  decide
 -- a key given positionally (3) and as a keyword (2) in ONE update call is counted 5 times
 example : ((TC.run 9 [Op.updateMapKw [(0, 3), (1, 1)] [(0, 2)]]).get 0,
            (TC.run 9 [Op.updateMapKw [(0, 3), (1, 1)] [(0, 2)]]).total) = (5, 6) := by decide
